@@ -35,19 +35,22 @@ type dlEv struct {
 }
 
 type dlCase struct {
-	Strategy  string   `json:"strategy"` // simple | precise | lookup | predicate
-	StratInit int      `json:"strat_init"`
-	PartInit  int      `json:"part_init,omitempty"` // lookup: limit argument the partition objects are constructed with
-	FracA     float64  `json:"frac_a,omitempty"`    // fractions of partitions a and b (0 = the defaults 0.5 / 0.25); c is a zero-percent partition
-	FracB     float64  `json:"frac_b,omitempty"`
-	Bulk      int      `json:"bulk,omitempty"` // >0: a fixed limit of that size is filled completely (int32/int16 corners)
-	Limit     LimitCfg `json:"limit"`          // algo "script" = scripted trajectory below
-	Traj      []int    `json:"traj,omitempty"` // scripted estimates: traj[i] after i OnSample calls (last repeats)
-	WinSize   int      `json:"win_size"`
-	WinMin    int64    `json:"win_min"`
-	WinMax    int64    `json:"win_max"`
-	Threshold int64    `json:"threshold"`
-	Evs       []dlEv   `json:"evs"`
+	Strategy  string `json:"strategy"` // simple | precise | lookup | predicate
+	StratInit int    `json:"strat_init"`
+	PartInit  int    `json:"part_init,omitempty"` // lookup: limit argument the partition objects are constructed with
+	// ReuseParts: a partition that is added back is the very object that was removed (its outstanding tokens still
+	// release on it), so every bin can be judged all the way through: busy of each object == tokens charged to it
+	ReuseParts bool     `json:"reuse_parts,omitempty"`
+	FracA      float64  `json:"frac_a,omitempty"` // fractions of partitions a and b (0 = the defaults 0.5 / 0.25); c is a zero-percent partition
+	FracB      float64  `json:"frac_b,omitempty"`
+	Bulk       int      `json:"bulk,omitempty"` // >0: a fixed limit of that size is filled completely (int32/int16 corners)
+	Limit      LimitCfg `json:"limit"`          // algo "script" = scripted trajectory below
+	Traj       []int    `json:"traj,omitempty"` // scripted estimates: traj[i] after i OnSample calls (last repeats)
+	WinSize    int      `json:"win_size"`
+	WinMin     int64    `json:"win_min"`
+	WinMax     int64    `json:"win_max"`
+	Threshold  int64    `json:"threshold"`
+	Evs        []dlEv   `json:"evs"`
 }
 
 // scriptLimit: a core.Limit whose estimate follows a scripted trajectory, recording every OnSample.
@@ -185,6 +188,9 @@ func genDL(purpose string) func(t *rapid.T) dlCase {
 				return dlEv{K: "sleep", Ns: rapid.SampledFrom([]int64{0, 1, 500, 999, 1000, 50_000, 100_000, 1_000_000, 2_000_000, 3_000_000, 25_000_000}).Draw(t, "ns")}
 			}
 		})
+		if dynCase {
+			c.ReuseParts = rapid.Bool().Draw(t, "reuseParts")
+		}
 		lo := rapid.SampledFrom([]int{1, 20, 60, 120}).Draw(t, "minlen")
 		c.Evs = rapid.SliceOfN(ev, lo, 260).Draw(t, "evs")
 		return c
@@ -195,7 +201,8 @@ type dlToken struct {
 	l        core.Listener
 	key      string
 	start    time.Duration
-	inflight int // in-flight gauge value right after the grant
+	inflight int    // in-flight gauge value right after the grant
+	bin      string // partition object the token was charged to ("" = unknown bin / not partitioned)
 }
 
 type dlBuilt struct {
@@ -207,6 +214,8 @@ type dlBuilt struct {
 	precise *strategy.PreciseStrategy
 	lookup  *strategy.LookupPartitionStrategy
 	pred    *strategy.PredicatePartitionStrategy
+	lobj    map[string]*strategy.LookupPartition // the partition objects by name (construction and later adds)
+	pobj    map[string]*strategy.PredicatePartition
 	present []string // partitions currently registered, in registration order (dynamic add / remove, C05 only)
 }
 
@@ -239,9 +248,15 @@ func (b *dlBuilt) addPart(c dlCase, name string) {
 		return
 	}
 	if b.lookup != nil {
-		b.lookup.AddPartition(name, strategy.NewLookupPartitionWithMetricRegistry(name, c.frac(name), int32(c.PartInit), b.reg))
+		if !c.ReuseParts {
+			b.lobj[name] = strategy.NewLookupPartitionWithMetricRegistry(name, c.frac(name), int32(c.PartInit), b.reg)
+		}
+		b.lookup.AddPartition(name, b.lobj[name])
 	} else {
-		b.pred.AddPartition(strategy.NewPredicatePartitionWithMetricRegistry(name, c.frac(name), matchers.StringPredicateMatcher(name, false), b.reg))
+		if !c.ReuseParts {
+			b.pobj[name] = strategy.NewPredicatePartitionWithMetricRegistry(name, c.frac(name), matchers.StringPredicateMatcher(name, false), b.reg)
+		}
+		b.pred.AddPartition(b.pobj[name])
 	}
 	b.present = append(b.present, name)
 }
@@ -316,6 +331,10 @@ func buildDLStrategy(c dlCase, b *dlBuilt) (core.Strategy, error) {
 		for _, n := range dlBins {
 			m[n] = strategy.NewLookupPartitionWithMetricRegistry(n, c.frac(n), int32(c.PartInit), b.reg)
 		}
+		b.lobj = map[string]*strategy.LookupPartition{}
+		for n, o := range m {
+			b.lobj[n] = o
+		}
 		l, err := strategy.NewLookupPartitionStrategyWithMetricRegistry(m, nil, int32(c.StratInit), b.reg)
 		if err != nil {
 			return nil, err
@@ -326,6 +345,10 @@ func buildDLStrategy(c dlCase, b *dlBuilt) (core.Strategy, error) {
 		var ps []*strategy.PredicatePartition
 		for _, n := range dlBins {
 			ps = append(ps, strategy.NewPredicatePartitionWithMetricRegistry(n, c.frac(n), matchers.StringPredicateMatcher(n, false), b.reg))
+		}
+		b.pobj = map[string]*strategy.PredicatePartition{}
+		for i, n := range dlBins {
+			b.pobj[n] = ps[i]
 		}
 		p, err := strategy.NewPredicatePartitionStrategyWithMetricRegistry(ps, int32(c.StratInit), b.reg)
 		if err != nil {
@@ -439,6 +462,7 @@ func runDLInBubble(c dlCase, prop string) (out kit.Outcome) {
 	model.reset()
 	var held []dlToken
 	perKey := map[string]int{}
+	perBin := map[string]int{} // tokens outstanding per partition *object* charged ("" = the lookup strategy's unknown bin)
 	var (
 		refusedAtLimit, grantedAfterRelease, limitBelowHeld bool
 		releasedOnce                                        bool
@@ -551,6 +575,10 @@ func runDLInBubble(c dlCase, prop string) (out kit.Outcome) {
 				cancel()
 				actx = dctx
 			}
+			chargedBin := "" // the bin this request is charged to if granted: its partition when registered right now
+			if b.idxOf(e.Key) >= 0 {
+				chargedBin = e.Key
+			}
 			l, ok := b.lim.Acquire(actx)
 			if (l != nil) != ok {
 				return kit.Viol(c.Strategy+":listener-iff-ok", "event %d: Acquire returned listener=%v ok=%v", i, l != nil, ok)
@@ -584,8 +612,9 @@ func runDLInBubble(c dlCase, prop string) (out kit.Outcome) {
 				// in-flight at acquire = the calls outstanding, this one included; counted here and not read
 				// back from the limiter, so that a leaking counter cannot hide in the expected windows
 				inf := len(held) + 1
-				held = append(held, dlToken{l: l, key: e.Key, start: time.Since(t0), inflight: inf})
+				held = append(held, dlToken{l: l, key: e.Key, start: time.Since(t0), inflight: inf, bin: chargedBin})
 				perKey[e.Key]++
+				perBin[chargedBin]++
 			}
 		case "done":
 			if len(held) == 0 {
@@ -598,6 +627,7 @@ func runDLInBubble(c dlCase, prop string) (out kit.Outcome) {
 			tk := held[k]
 			held = append(held[:k], held[k+1:]...)
 			perKey[tk.key]--
+			perBin[tk.bin]--
 			releasedOnce = true
 			if c.Threshold <= 0 && time.Since(t0) == tk.start {
 				time.Sleep(1) // without a filter a literal 0 ns sample would enter the window: outside the domain (0 is the window's "unset" marker)
@@ -640,6 +670,21 @@ func runDLInBubble(c dlCase, prop string) (out kit.Outcome) {
 		if prop == "c02" {
 			if g := int(b.lim.VerifInFlight()); g != len(held) {
 				return kit.Viol(c.Strategy+":limiter-gauge", "after event %d (%s): the limiter's in-flight gauge is %d, outstanding tokens=%d (windows closed so far: %d)", i, e.K, g, len(held), len(model.want))
+			}
+			if (b.lookup != nil || b.pred != nil) && dynParts && c.ReuseParts {
+				// partitions came and went but the objects are the same throughout: each object's count is exact,
+				// registered at the moment or not
+				for _, n := range dlBins {
+					got := 0
+					if b.lobj != nil {
+						got = b.lobj[n].BusyCount()
+					} else {
+						got = b.pobj[n].BusyCount()
+					}
+					if got != perBin[n] {
+						return kit.Viol(c.Strategy+":bin-object-busy", "after event %d (%s): partition object %q (registered now: %v) reports busy=%d, tokens charged to it and not yet completed=%d", i, e.K, n, b.idxOf(n) >= 0, got, perBin[n])
+					}
+				}
 			}
 			if (b.lookup != nil || b.pred != nil) && !dynParts {
 				for k, n := range dlBins {
